@@ -41,6 +41,23 @@ def program_cases(ctx, rnd, n, max_subsets=8, prefix="P"):
     return cases
 
 
+def long_narrow_cases(rnd, n, prefix="PLN"):
+    """Reductions / statistics of int8 .. uint16 data over more elements than the dtype can count, traced with unknown and
+    with static extents: any count or index computed in the element type shows as eager != exported."""
+    out = []
+    for i in range(n):
+        d = rnd.choice(["int8", "uint8", "int16", "nint8"])
+        k = rnd.choice([130, 200, 260, 300]) if "8" in d else rnd.choice([33000, 40000])
+        x = {"dtype": d, "shape": [k], "data": [rnd.randint(-3, 3) if not d.startswith("u") else rnd.randint(0, 5) for _ in range(k)]}
+        if d.startswith("n"):
+            x["mask"] = [False] * k
+        f = rnd.choice(["ndx.mean(x)", "ndx.sum(x)", "ndx.mean(x, axis=0, keepdims=True)", "ndx.var(ndx.astype(x, ndx.float64))", "ndx.argmax(x)", "ndx.cumulative_sum(x)[-1]", "ndx.mean(ndx.reshape(x, [2, -1]), axis=1)"])
+        c = families.mkcase(f"{prefix}-{i}", {"x": x}, f"out = {f}", None, {"func": "long-narrow-reduction", "dtype": d, "dclass": family.dclass(d)}, rnd, symbolic=False)
+        c["lazy_subsets"] = [{"names": ["x"], "sigs": {"x": [None]}}, {"names": ["x"], "sigs": {"x": ["N"]}}, {"names": ["x"]}]
+        out.append(c)
+    return out
+
+
 def payload_cases(rnd, n, prefix="PV"):
     """Programs that read the fields of a nullable array directly: whatever is stored under a null is part of the
     input (the exported model receives it as x_values), so eager evaluation must see the same payload."""
@@ -63,6 +80,7 @@ def function_cases(rnd, scale):
           + families.sorting_cases(rnd, 60 * scale, prefix="PS", max_len=12)
           + [c for c in families.sorting_cases(rnd, 90 * scale, prefix="PSN", max_len=8, dtypes=["nfloat64", "nfloat32", "nint64"]) if c["meta"]["func"] in ("sort", "argsort")]
           + payload_cases(rnd, 30 * scale)
+          + long_narrow_cases(rnd, 16 * scale)
           + families.setitem_cases(rnd, 60 * scale, prefix="PW")
           + families.creation_cases(rnd, 60 * scale, prefix="PC"))
     # programs that read shapes / values in Python are not traceable by construction
